@@ -131,3 +131,14 @@ Example C06_source_event_ex :
           XNow 2000; XMarshal true; XBus false; XLogLine MSG 7;
           XNow 3000; XMarshal true; XBus true; queue_ev 3000 9; XLogLine MSG 9].
 Proof. exact ex_when. Qed.
+
+From TR Require Import proofs.Bridges.
+
+(* ---- the wiring this property depends on, as cmd/thermal-recorder/main.go builds it now (proofs/TieConn.v, restated
+   in proofs/Bridges.v): ONE processor and - when activated - ONE throttle per connection, built before the frame loop;
+   the loop itself only resets and feeds that processor (a camera 'clear' does not rebuild anything, so the bucket and
+   the throttle's recording state live exactly as long as the connection) *)
+Theorem C06_source_handleConn : BConn.handleConn_source_tie_stmt.
+Proof. exact BConn.handleConn_source_tie. Qed.
+Theorem C06_source_wiring : BConn.wiring_stmt.
+Proof. exact BConn.wiring. Qed.
